@@ -884,17 +884,21 @@ class SgzReader(object):
             assert self.include_padding == include_padding
 
         tracefild_list = self.segy_traceheader_template if tracefields is None else tracefields
+        # Header fields which duplicate one another share a stored array, read it once
+        loaded = {self.segy_traceheader_template[k]: v for k, v in self.variant_headers.items()}
         for k in tracefild_list:
             # Yes, iterate through list of dictionary keys, because we might not have dict
             if k not in self.variant_headers:
                 offset = self.segy_traceheader_template[k]
                 if isinstance(offset, FileOffset) and k not in self.variant_headers:
-                    use_mask = self.is_3d and not (self.structured or self.include_padding)
-                    if use_mask:
-                        self.get_unstructured_mask()
-                    buffer = self.file.read_range(self.file, offset, self.header_entry_length_bytes)
-                    values = np.frombuffer(buffer, dtype=np.int32)
-                    self.variant_headers[k] = values[self.mask] if use_mask else values
+                    if offset not in loaded:
+                        use_mask = self.is_3d and not (self.structured or self.include_padding)
+                        if use_mask:
+                            self.get_unstructured_mask()
+                        buffer = self.file.read_range(self.file, offset, self.header_entry_length_bytes)
+                        values = np.frombuffer(buffer, dtype=np.int32)
+                        loaded[offset] = values[self.mask] if use_mask else values
+                    self.variant_headers[k] = loaded[offset]
 
     def _load_variant_headers(self, include_padding, tracefields=None):
         """Used by the reading methods, each of which needs one particular padding mode: if arrays
@@ -960,14 +964,17 @@ class SgzReader(object):
 
         header = self.segy_traceheader_template.copy()
 
+        values = {}  # Header fields which duplicate one another share a stored array, read it once
         for k, v in header.items():
             if isinstance(v, FileOffset):
                 if load_all_headers or not self.structured:
                     self._load_variant_headers(include_padding=False)
                     header[k] = self.variant_headers[k][index]
                 else:
-                    buf = self.file.read_range(self.file, v + 4*index, 4)  # A 32-bit int is 4 bytes
-                    header[k] = np.frombuffer(buf, dtype=np.int32)[0]
+                    if v not in values:
+                        buf = self.file.read_range(self.file, v + 4*index, 4)  # A 32-bit int is 4 bytes
+                        values[v] = np.frombuffer(buf, dtype=np.int32)[0]
+                    header[k] = values[v]
         return header
 
     def get_file_binary_header(self):
